@@ -11,8 +11,10 @@ import time
 import traceback
 
 ROOT = os.path.dirname(os.path.dirname(os.path.abspath(__file__)))
-EVIDENCE_DIR = os.path.join(ROOT, "evidence")
-REPLAY_DIR = os.path.join(ROOT, "replays")
+# RVERIF_OUT: where a self-test run against a scratch copy (RVERIF_REPO) writes, so that it never replaces the evidence of /repo
+_OUT = os.environ.get("RVERIF_OUT") or ROOT
+EVIDENCE_DIR = os.path.join(_OUT, "evidence")
+REPLAY_DIR = os.path.join(_OUT, "replays")
 KNOWN = os.path.join(ROOT, "known_findings.json")
 
 STANDING_ASSUMPTIONS = [
